@@ -22,6 +22,8 @@ func main() {
 		names = append(names, c.name)
 		bodies[c.name] = func() { c.run(r, c.name) }
 	}
+	names = append(names, "race")
+	bodies["race"] = func() { r.RunRacePass("C20") }
 	r.Parallel(names, func(g string) { bodies[g]() })
 	r.Finish()
 }
